@@ -18,7 +18,8 @@ if os.path.exists(hc):
 for p in props:
     pid = p["id"]
     path = os.path.join(HERE, "verif", "checks", pid.lower() + ".py")
-    if not os.path.exists(path):
+    claimed = set(open(os.path.join(HERE, "verif", "claimed.txt")).read().split())
+    if not os.path.exists(path) or pid not in claimed:
         reason = "no check registered yet (under construction); not claimed"
         nafile = os.path.join(HERE, "verif", "checks", pid.lower() + ".na")
         if os.path.exists(nafile):
